@@ -428,3 +428,48 @@ pub fn neg_refs_contains<'a>(m: &mut std::collections::BTreeMap<u32, Vec<&'a [u3
         refs.push(q);
     }
 }
+
+// ---------------------------------------------------------------- R9.8 a result buffer handed to an appending callee
+pub fn append_into(what: &str, buf: &mut String) -> Result<(), String> {
+    buf.push_str(what);
+    Ok(())
+}
+pub fn pos_result_is_whole_buffer<'a>(what: &str, buf: &'a mut String) -> Result<&'a str, String> {
+    append_into(what, buf).map(|()| &buf[..])
+}
+pub fn neg_buffer_cleared_first<'a>(what: &str, buf: &'a mut String) -> Result<&'a str, String> {
+    buf.clear();
+    append_into(what, buf).map(|()| &buf[..])
+}
+
+// ---------------------------------------------------------------- R7.8 a fixpoint loop with / without a bounded counter
+pub fn pos_unbounded_fixpoint(mut x: u64) -> u64 {
+    let mut old = 0;
+    loop {
+        x = step(x);
+        if x == old {
+            break;
+        }
+        old = x;
+    }
+    x
+}
+pub fn neg_bounded_fixpoint(mut x: u64, n: usize) -> u64 {
+    let mut old = 0;
+    let mut remaining = n + 1;
+    loop {
+        x = step(x);
+        if x == old {
+            break;
+        }
+        old = x;
+        remaining -= 1;
+        if remaining == 0 {
+            break;
+        }
+    }
+    x
+}
+pub fn step(x: u64) -> u64 {
+    x / 2
+}
